@@ -1307,4 +1307,87 @@ theorem specPool_eq (hosts : List Host) (raw : List (List Key)) (policy : Nat) (
     | nil => simp
     | cons a b => simp
 
+/-! ### J. match criteria as the router builds them -/
+
+theorem map_fst_insertKV (kv : KV) (l : Path) : (insertKV kv l).map (·.1) = insertKey kv.1 (l.map (·.1)) := by
+  induction l with
+  | nil => rfl
+  | cons x r ih =>
+    simp only [insertKV, List.map_cons, insertKey]
+    split <;> simp [ih]
+
+theorem map_fst_mkCriteria (kvs : Path) : (mkCriteria kvs).map (·.1) = sortKeys (kvs.map (·.1)) := by
+  induction kvs with
+  | nil => rfl
+  | cons kv r ih =>
+    have h1 : mkCriteria (kv :: r) = insertKV kv (mkCriteria r) := rfl
+    have h2 : sortKeys ((kv :: r).map (·.1)) = insertKey kv.1 (sortKeys (r.map (·.1))) := rfl
+    rw [h1, h2, map_fst_insertKV, ih]
+
+theorem mem_insertKV (kv x : KV) (l : Path) : x ∈ insertKV kv l ↔ x = kv ∨ x ∈ l := by
+  induction l with
+  | nil => simp [insertKV]
+  | cons y r ih =>
+    unfold insertKV
+    split
+    · simp
+    · simp only [List.mem_cons, ih]
+      constructor
+      · rintro (h | h | h); exact Or.inr (Or.inl h); exact Or.inl h; exact Or.inr (Or.inr h)
+      · rintro (h | h | h); exact Or.inr (Or.inl h); exact Or.inl h; exact Or.inr (Or.inr h)
+
+theorem mem_mkCriteria (kvs : Path) (x : KV) : x ∈ mkCriteria kvs ↔ x ∈ kvs := by
+  induction kvs with
+  | nil => simp [mkCriteria]
+  | cons kv r ih =>
+    have h1 : mkCriteria (kv :: r) = insertKV kv (mkCriteria r) := rfl
+    rw [h1, mem_insertKV, ih]; simp
+
+theorem mkCriteria_sorted (kvs : Path) (hnd : (kvs.map (·.1)).Nodup) :
+    strictSorted ((mkCriteria kvs).map (·.1)) = true := by
+  rw [map_fst_mkCriteria, strictSorted_iff]
+  exact (sortKeys_spec _ hnd).1
+
+theorem contains_congr (h : Host) (c c' : Path) (hm : ∀ kv, kv ∈ c ↔ kv ∈ c') : contains h c = contains h c' := by
+  rw [Bool.eq_iff_iff]
+  simp only [contains, List.all_eq_true]
+  exact ⟨fun hh kv hkv => hh kv ((hm kv).mpr hkv), fun hh kv hkv => hh kv ((hm kv).mp hkv)⟩
+
+theorem selectorExists_congr (raw : List (List Key)) (c c' : Path) (hm : ∀ kv, kv ∈ c ↔ kv ∈ c') :
+    selectorExists raw c = selectorExists raw c' := by
+  rw [Bool.eq_iff_iff, selectorExists_iff, selectorExists_iff]
+  have hk : ∀ k, k ∈ c.map (·.1) ↔ k ∈ c'.map (·.1) := by
+    intro k
+    simp only [List.mem_map]
+    exact ⟨fun ⟨kv, h1, h2⟩ => ⟨kv, (hm kv).mp h1, h2⟩, fun ⟨kv, h1, h2⟩ => ⟨kv, (hm kv).mpr h1, h2⟩⟩
+  have hne : c ≠ [] ↔ c' ≠ [] := by
+    constructor
+    · intro h e; subst e
+      obtain ⟨x, hx⟩ := List.exists_mem_of_ne_nil _ h
+      exact absurd ((hm x).mp hx) (by simp)
+    · intro h e; subst e
+      obtain ⟨x, hx⟩ := List.exists_mem_of_ne_nil _ h
+      exact absurd ((hm x).mpr hx) (by simp)
+  constructor
+  · rintro ⟨h1, r, hr, h2⟩
+    exact ⟨hne.mp h1, r, hr, fun k => (h2 k).trans (hk k)⟩
+  · rintro ⟨h1, r, hr, h2⟩
+    exact ⟨hne.mpr h1, r, hr, fun k => (h2 k).trans (hk k).symm⟩
+
+theorem specTargets_congr (hosts : List Host) (raw : List (List Key)) (policy : Nat) (dflt c c' : Path)
+    (hm : ∀ kv, kv ∈ c ↔ kv ∈ c') :
+    specTargets hosts raw policy dflt c = specTargets hosts raw policy dflt c' := by
+  have h1 : (fun h : Host => contains h c) = (fun h => contains h c') := by
+    funext h; exact contains_congr h c c' hm
+  unfold specTargets
+  rw [selectorExists_congr raw c c' hm, h1]
+
+theorem specPool_congr (hosts : List Host) (raw : List (List Key)) (policy : Nat) (dflt c c' : Path)
+    (hm : ∀ kv, kv ∈ c ↔ kv ∈ c') :
+    specPool hosts raw policy dflt c = specPool hosts raw policy dflt c' := by
+  have h1 : (fun h : Host => contains h c) = (fun h => contains h c') := by
+    funext h; exact contains_congr h c c' hm
+  unfold specPool
+  rw [selectorExists_congr raw c c' hm, h1]
+
 end MosnVerif.Model.Subset
